@@ -305,3 +305,9 @@ impl OSSWUMap for G2 {
         panic!("Failed to find square root in G2 osswu_map");
     }
 }
+
+/// Verification hook: (A', B', Z), the four etas and the four roots of unity of the G2 SSWU map.
+#[cfg(feature = "verif-hooks")]
+pub fn verif_consts() -> ([Fq2; 3], [Fq2; 4], [Fq2; 4]) {
+    ([ELLP_A, ELLP_B, XI], ETAS, ROOTS_OF_UNITY)
+}
